@@ -89,6 +89,15 @@ fn canon_idents() -> Vec<Identifier> {
         al("-1"),
         al("18446744073709551616"),
         al("00018446744073709551616"),
+        // digit-count boundaries of u64
+        num(9_999_999_999_999_999_999),
+        num(10_000_000_000_000_000_000),
+        num(999_999_999_999_999_999),
+        num(1_000_000_000_000_000_000),
+        al("99999999999999999999"),
+        al("100000000000000000000"),
+        al("10a"),
+        al("--1"),
     ]
 }
 
@@ -97,12 +106,38 @@ fn wild_idents() -> Vec<Identifier> {
     vec![al(""), al("é"), al("ı"), al("日本"), al("a.b"), al("00"), al("7"), al("a b"), al("😀"), al("\u{7f}")]
 }
 
+/// a number of uniformly random *magnitude*: bit length first, then the bits (so that three-digit,
+/// seven-digit and fifteen-digit values are as likely as one-digit ones), capped at `cap`
+pub fn log_uniform(rng: &mut Rng, cap: u64) -> u64 {
+    let bits = rng.below(64) as u32;
+    let v = if bits == 0 { 0 } else { (rng.next() >> (64 - bits)) | (1u64 << (bits - 1)) };
+    v.min(cap)
+}
+
+/// values at a power of two (or of ten) and its neighbours: where packed keys, fast paths and digit
+/// counts change
+pub fn boundary_value(rng: &mut Rng, cap: u64) -> u64 {
+    let base: u64 = if rng.chance(1, 2) {
+        1u64 << rng.below(64)
+    } else {
+        10u64.pow(rng.below(20) as u32)
+    };
+    let v = match rng.below(3) {
+        0 => base.saturating_sub(1),
+        1 => base,
+        _ => base.saturating_add(1),
+    };
+    v.min(cap)
+}
+
 fn gen_component(rng: &mut Rng, wide: bool) -> u64 {
     let small = [0u64, 0, 1, 1, 2, 3, 9, 10, 11];
-    match rng.below(10) {
-        0 => *rng.pick(&[MAX - 1, MAX]),
-        1 if wide => *rng.pick(&[MAX + 1, u64::MAX, u64::MAX - 1, 1 << 32, (1 << 53) + 1]),
-        2 => rng.next() % 1000,
+    match rng.below(20) {
+        0 | 1 => *rng.pick(&[MAX - 1, MAX]),
+        2 | 3 if wide => *rng.pick(&[MAX + 1, u64::MAX, u64::MAX - 1, 1 << 32, (1 << 53) + 1]),
+        4 | 5 => rng.next() % 1000,
+        6 | 7 | 8 => log_uniform(rng, if wide { u64::MAX } else { MAX }),
+        9 => boundary_value(rng, if wide { u64::MAX } else { MAX }),
         _ => *rng.pick(&small),
     }
 }
@@ -110,11 +145,15 @@ fn gen_component(rng: &mut Rng, wide: bool) -> u64 {
 fn gen_idents(rng: &mut Rng, wild: bool) -> Vec<Identifier> {
     let pool = canon_idents();
     let wpool = wild_idents();
-    let n = *rng.pick(&[0usize, 0, 0, 1, 1, 1, 2, 2, 3, 4]);
+    let n = *rng.pick(&[0usize, 0, 0, 1, 1, 1, 2, 2, 3, 4, 6, 9]);
     (0..n)
         .map(|_| {
             if wild && rng.chance(1, 6) {
                 rng.pick(&wpool).clone()
+            } else if rng.chance(1, 10) {
+                num(log_uniform(rng, u64::MAX))
+            } else if rng.chance(1, 15) {
+                num(boundary_value(rng, u64::MAX))
             } else {
                 rng.pick(&pool).clone()
             }
@@ -159,6 +198,8 @@ pub fn neighbours(v: &Version) -> Vec<Version> {
     if !v.pre_release.is_empty() {
         let mut w = v.clone();
         w.pre_release.push(num(0));
+        out.push(w.clone());
+        w.pre_release.push(num(1));
         out.push(w);
         let mut w = v.clone();
         w.pre_release.pop();
@@ -206,11 +247,29 @@ fn version_grid(rng: &mut Rng, printed: &str, extra: usize) -> Vec<Version> {
 
 // ---------------------------------------------------------------- version texts
 
-const TAGS: &[&str] = &["alpha", "beta.1", "0", "1", "rc.1", "a", "-", "0a", "a-b", "x", "7.8", "alpha.0", "0.0", "a.a", "rc.1.rc", "1.x.1", "-.-"];
+const TAGS: &[&str] = &[
+    "alpha", "beta.1", "0", "1", "rc.1", "a", "-", "0a", "a-b", "x", "7.8", "alpha.0", "0.0", "a.a", "rc.1.rc", "1.x.1", "-.-",
+    // numeric identifiers at the digit-count and 64-bit boundaries, next to hyphen/digit-initial alphanumerics
+    "9999999999999999999", "10000000000000000000", "18446744073709551615", "18446744073709551616", "99999999999999999999",
+    "10000000000000000000.-", "--", "10a", "1-", "--1", "000000000000000000001", "alpha.beta.gamma.delta.1.2.3.4.5",
+    "1048576", "16777216.4294967296",
+];
 const BUILDS: &[&str] = &["build", "1", "b.7", "-", "exp.sha.5114f85", "7.7", "b.b", "b.1.b"];
 
+/// a number text of random magnitude, sometimes zero-padded (also to more than 20 digits)
+fn wide_num_text(rng: &mut Rng) -> String {
+    let v = if rng.chance(1, 3) { boundary_value(rng, u64::MAX) } else { log_uniform(rng, u64::MAX) };
+    let mut t = v.to_string();
+    if rng.chance(1, 5) {
+        let pad = *rng.pick(&[1usize, 2, 5, 12, 20, 25]);
+        t = format!("{}{}", "0".repeat(pad), t);
+    }
+    t
+}
+
 fn gen_num_text(rng: &mut Rng) -> String {
-    match rng.below(12) {
+    match rng.below(16) {
+        12 | 13 | 14 | 15 => wide_num_text(rng),
         0 => MAX.to_string(),
         1 => (MAX + 1).to_string(),
         2 => "18446744073709551615".into(),
@@ -313,7 +372,12 @@ fn exhaustive(alphabet: &str, max_len: usize, f: &mut dyn FnMut(&str)) {
 // ---------------------------------------------------------------- range texts
 
 fn gen_small(rng: &mut Rng) -> String {
-    match rng.below(40) {
+    match rng.below(48) {
+        40 | 41 | 42 | 43 | 44 | 45 => {
+            let v = if rng.chance(1, 3) { boundary_value(rng, MAX) } else { log_uniform(rng, MAX) };
+            if rng.chance(1, 8) { format!("{}{}", "0".repeat(*rng.pick(&[1usize, 4, 12, 22])), v) } else { v.to_string() }
+        }
+        46 | 47 => wide_num_text(rng),
         0 | 1 | 2 => MAX.to_string(),
         3 | 4 | 5 => format!("0{}", rng.below(4)),
         6 => rng.pick(&["900719925474100", "18446744073709551615", "18446744073709551614", "18446744073709551616", "00018446744073709551615"]).to_string(),
@@ -376,7 +440,7 @@ pub fn gen_alternative(rng: &mut Rng, garbage: bool) -> String {
         let sep = rng.pick(&[" - ", "  -  ", " -\t", "\t- "]).to_string();
         return format!("{}{}{}", gen_partial(rng), sep, gen_partial(rng));
     }
-    let n = *rng.pick(&[1usize, 1, 1, 2, 2, 3]);
+    let n = *rng.pick(&[1usize, 1, 1, 1, 2, 2, 2, 3, 3, 4, 6]);
     let mut parts = Vec::new();
     for _ in 0..n {
         if garbage && rng.chance(1, 8) {
@@ -401,7 +465,7 @@ pub fn gen_alternative(rng: &mut Rng, garbage: bool) -> String {
 /// (tokens whose classification does not depend on what follows them)
 pub fn gen_comparator_list(rng: &mut Rng) -> String {
     const CLOSED: &[&str] = &["foo", "1.y", ">=1.y", "1.2.3.4", "1.2beta4", ">>1", "1."];
-    let n = *rng.pick(&[1usize, 1, 2, 2, 3]);
+    let n = *rng.pick(&[1usize, 1, 2, 2, 3, 5]);
     let mut parts = Vec::new();
     for _ in 0..n {
         if rng.chance(1, 10) {
@@ -415,7 +479,7 @@ pub fn gen_comparator_list(rng: &mut Rng) -> String {
 }
 
 pub fn gen_range_text(rng: &mut Rng, garbage: bool) -> String {
-    let n = *rng.pick(&[1usize, 1, 1, 2, 2, 3]);
+    let n = *rng.pick(&[1usize, 1, 1, 1, 2, 2, 2, 3, 3, 5, 9]);
     let mut s = String::new();
     if rng.chance(1, 15) {
         s.push(' ');
@@ -432,9 +496,35 @@ pub fn gen_range_text(rng: &mut Rng, garbage: bool) -> String {
     s
 }
 
+/// a range text with `n` alternatives in one of four styles (bare `||` as `Display` prints it, spaced,
+/// two-sided alternatives, mixed operators)
+fn long_range_text(rng: &mut Rng, n: usize, style: usize) -> String {
+    let sep = match style {
+        0 => "||",
+        1 => " || ",
+        _ => *rng.pick(&["||", " || ", " ||"]),
+    };
+    (0..n)
+        .map(|k| match style {
+            0 | 1 => format!("1.0.{}", k),
+            2 => format!(">={}.0.0 <{}.0.0-{}", k * 2, k * 2 + 1, rng.pick(TAGS)),
+            _ => gen_alternative(rng, false),
+        })
+        .collect::<Vec<_>>()
+        .join(sep)
+}
+
+/// `n` comparators that all hold around `5.x` (so the conjunction is not empty), 100-250 bytes
+fn long_comparator_list(rng: &mut Rng, n: usize, lower: bool) -> String {
+    (0..n)
+        .map(|k| if lower == (k % 3 != 2) { format!(">=0.{}.{}", k, rng.below(30)) } else { format!("<{}.0.{}", 100 + k, rng.below(30)) })
+        .collect::<Vec<_>>()
+        .join(" ")
+}
+
 /// chain of versions in which neighbours are immediate successors or share a cut
 fn chain_small() -> Vec<&'static str> {
-    vec!["1.0.0-a", "1.0.0-a.0", "1.0.0", "1.0.1-0", "1.0.1", "2.0.0"]
+    vec!["1.0.0-a", "1.0.0-a.0", "1.0.0-a.0.1", "1.0.0", "1.0.1-0", "1.0.1", "2.0.0"]
 }
 
 fn chain_big() -> Vec<&'static str> {
@@ -444,6 +534,9 @@ fn chain_big() -> Vec<&'static str> {
         "1.0.0-0",
         "1.0.0-a",
         "1.0.0-a.0",
+        "1.0.0-a.0.0",
+        "1.0.0-a.0.1",
+        "1.0.0-a.1",
         "1.0.0",
         "1.0.0+b",
         "1.0.1-0",
@@ -491,7 +584,7 @@ fn parsed(texts: Vec<String>) -> Vec<(String, Range)> {
 
 fn gen_multi(rng: &mut Rng, base: &[(String, Range)]) -> (String, Range) {
     loop {
-        let n = *rng.pick(&[1usize, 2, 2, 3]);
+        let n = *rng.pick(&[1usize, 2, 2, 2, 3, 3, 5, 8]);
         let t = (0..n).map(|_| rng.pick(base).0.clone()).collect::<Vec<_>>().join("||");
         if let Ok(r) = try_range(&t) {
             return (t, r);
@@ -921,6 +1014,86 @@ pub fn run_stream(name: &str, thorough: bool, rng: &mut Rng, o: &mut Out) {
                 o.setops(&t, &r, crate::ANY, &any);
             }
         }
+        "long_texts" => {
+            // range texts well beyond MAX_LENGTH bytes and with many alternatives / comparators: parse,
+            // round trip, serde; AND/OR laws on long sides; satisfaction on the neighbourhood
+            for i in 0..60 * scale {
+                let n = *rng.pick(&[9usize, 12, 17, 36, 40, 64, 150]);
+                let t = long_range_text(rng, n, i % 4);
+                o.rparse(&t);
+                o.rround(&t);
+                if i % 5 == 0 {
+                    o.serder(&t);
+                }
+                if let Ok(r) = try_range(&t) {
+                    let printed = r.to_string();
+                    o.rround(&printed);
+                    o.minv(&t, &r);
+                    let grid = version_grid(rng, &printed, 2);
+                    for _ in 0..12 {
+                        o.sat(&t, &r, rng.pick(&grid));
+                    }
+                    let vs: Vec<Version> = (0..7).map(|_| rng.pick(&grid).clone()).collect();
+                    o.maxmin(&t, &r, &vs);
+                }
+            }
+            for i in 0..40 * scale {
+                // two comparator lists of 100-250 bytes each: the joined text exceeds 256 bytes
+                let (na, nb) = (*rng.pick(&[8usize, 14, 22]), *rng.pick(&[8usize, 14, 22]));
+                let a = long_comparator_list(rng, na, i % 2 == 0);
+                let b = long_comparator_list(rng, nb, i % 2 == 1);
+                let joined = format!("{} || {}", a, b);
+                let printed = try_range(&joined).map(|r| r.to_string()).unwrap_or_default();
+                let grid = version_grid(rng, &printed, 2);
+                for _ in 0..8 {
+                    o.c02(&a, &b, rng.pick(&grid));
+                }
+            }
+        }
+        "setops_many" => {
+            // one operand with many (up to 16) alternatives, all touching one alternative of the other
+            let big = parsed(intervals(&chain_big()));
+            for i in 0..400 * scale {
+                let n = 2 + rng.below(15);
+                let start = rng.below(4) as u64;
+                let many = (0..n)
+                    .map(|k| {
+                        let m = start + k as u64;
+                        match rng.below(4) {
+                            0 => format!("{}.1.0", m),
+                            1 => format!(">={}.2.0 <{}.5.0", m, m),
+                            2 => format!(">{}.0.0-rc <={}.0.7", m, m),
+                            _ => format!("~{}.3", m),
+                        }
+                    })
+                    .collect::<Vec<_>>();
+                let mut order = many.clone();
+                if i % 2 == 1 {
+                    order.reverse();
+                }
+                let tb = order.join(" || ");
+                let ta = match rng.below(4) {
+                    0 => format!(">={}.0.0 <{}.0.0", start, start + n as u64 + 2),
+                    1 => "*".to_string(),
+                    2 => format!(">{}.1.0", start),
+                    _ => rng.pick(&big).0.clone(),
+                };
+                if let (Ok(a), Ok(b)) = (try_range(&ta), try_range(&tb)) {
+                    o.setops(&ta, &a, &tb, &b);
+                    o.setops(&tb, &b, &ta, &a);
+                }
+            }
+        }
+        "vcmp_text" => {
+            // precedence of versions as the *parser* returns them: texts with numeric identifiers at
+            // the digit-count and 64-bit boundaries next to hyphen/digit-initial alphanumerics
+            for _ in 0..6000 * scale {
+                let core = format!("{}.{}.{}", gen_num_text(rng), gen_num_text(rng), gen_num_text(rng));
+                let a = format!("{}-{}", core, rng.pick(TAGS));
+                let b = if rng.chance(2, 3) { format!("{}-{}", core, rng.pick(TAGS)) } else { gen_version_text(rng) };
+                o.vcmpt(&a, &b);
+            }
+        }
         "setops_big" => {
             let base = parsed(intervals(&chain_big()));
             let n = if thorough { 400000 } else { 12000 };
@@ -1182,6 +1355,10 @@ pub fn replay_line(line: &str, o: &mut Out) {
                 (Ok(a), Ok(b)) => o.setops(&ta, &a, &tb, &b),
                 _ => bad(o),
             },
+            _ => bad(o),
+        },
+        "vcmpt" => match (f.get(1).and_then(|x| unhex(x)), f.get(2).and_then(|x| unhex(x))) {
+            (Some(a), Some(b)) => o.vcmpt(&a, &b),
             _ => bad(o),
         },
         "vsort" => {
